@@ -12,7 +12,7 @@ from pyvc import ir, engine, smt, pdmodel, libmodel, values
 from pyvc.report import Ob
 from pyvc.values import Sym, Lane, Arr2, State, GenList
 from pyvc.interp import Obj, PyRaise, PyList
-from . import uni, biv, gm
+from . import uni, biv, gm, vine
 from .C19 import obs_terms, observe_uni
 from .uni import term
 
@@ -122,6 +122,7 @@ def build(chk):
     build_bivariate(chk)
     build_gaussian(chk)
     build_unfitted(chk)
+    build_vines(chk)
     bounded_vines(chk)
     chk.assumptions += [
         'JSON and pickle are structural copies; symbolic real leaves stand for Python floats (which JSON round-trips exactly)',
@@ -354,6 +355,129 @@ def build_unfitted(chk):
                        clause='to_dict of the reconstructed unfitted model equals the original'))
         if k == 0 and not chk.undecided:
             chk.engine_error('C14.unfitted.%s: no path' % tag)
+
+
+def vine_rt_replay(vt, d):
+    def replay(env):
+        import numpy as np
+        import pandas as pd
+        import warnings
+        warnings.simplefilter('ignore')
+        from copulas.multivariate import VineCopula, Multivariate
+        bad = []
+        for seed in range(4):
+            rs = np.random.RandomState(seed)
+            A = rs.normal(size=(d, d))
+            X = pd.DataFrame(rs.multivariate_normal(np.zeros(d), A @ A.T + 0.3 * np.eye(d), 80), columns=vine.LABELS[:d])
+            try:
+                v = VineCopula(vt)
+                v.fit(X, truncated=d)
+                dct = v.to_dict()
+                for entry in (VineCopula, Multivariate):
+                    v2 = entry.from_dict(dct)
+                    if type(v2) is not VineCopula or not _eq(dct, v2.to_dict()):
+                        bad.append('seed %d: %s.from_dict(to_dict()) has another class or dict' % (seed, entry.__name__))
+                    u = rs.uniform(0.1, 0.9, size=(1, d))
+                    a, b = v.get_likelihood(u), v2.get_likelihood(u)
+                    if not (a == b or (a != a and b != b)):
+                        bad.append('seed %d: likelihood %r vs %r after the round trip' % (seed, a, b))
+                    v.set_random_state(5)
+                    v2.set_random_state(5)
+                    if not v.sample(3).equals(v2.sample(3)):
+                        bad.append('seed %d: sample stream differs after the round trip' % seed)
+            except Exception as e:      # noqa
+                bad.append('seed %d: %s: %s' % (seed, type(e).__name__, str(e)[:100]))
+            if bad:
+                break
+        return {'confirmed': bool(bad), 'detail': bad[0] if bad else 'native %s vine round trips (d=%d) preserve dict, likelihood '
+                'and sample stream' % (vt, d), 'input': {'vine_type': vt, 'd': d}}
+    return replay
+
+
+def build_vines(chk):
+    """fitted vines: from_dict(to_dict(m)) through VineCopula.from_dict and the generic Multivariate.from_dict"""
+    VINE, TREE = vine.VINE, vine.TREE
+    chk.under_contract(engine.new_interp().source, [TREE + 'Tree.to_dict', TREE + 'Tree.from_dict', TREE + 'Edge.to_dict',
+                                                    TREE + 'Edge.from_dict', TREE + 'Tree._serialize_previous_tree',
+                                                    TREE + 'Tree._deserialize_previous_tree', VINE + '._deserialize_trees',
+                                                    TREE + 'get_tree'])
+    dims = (2, 3) if chk.tier == 'quick' else (2, 3, 4)
+    for vt in ('center', 'direct', 'regular'):
+        for d in dims:
+            for entry_name in ('VineCopula', 'Multivariate', 'pickle'):
+                if entry_name != 'VineCopula' and d != 3:
+                    continue
+                I = engine.new_interp()
+                gm.install_rootfinders(I)
+                vine.install_contracts(I)
+                uq = [ir.var('uq_%d' % i) for i in range(d)]
+
+                def body(c, I=I, d=d, vt=vt, entry_name=entry_name, uq=uq):
+                    m = vine.fit_vine(I, c, d, vt, truncated=d)
+                    c.assume(ir.and_(*[ir.and_(ir.gt(x, 0), ir.lt(x, 1)) for x in uq]))
+                    dd = I.call_method(m, 'to_dict', [])
+                    snap = vine.flatten(dd)
+                    entry = I.resolve(VINE if entry_name == 'VineCopula' else 'copulas.multivariate.base.Multivariate')
+                    if entry_name == 'pickle':
+                        I.call_method(m, 'save', ['vine.pkl'])
+                        m2 = I.call(I.getattr(entry, 'load'), ['vine.pkl'], {})
+                    else:
+                        m2 = I.call(I.getattr(entry, 'from_dict'), [dd], {})
+                    c.out['arg_same'] = [p for p, _ in vine.flatten(dd)] == [p for p, _ in snap] and \
+                        all(x is y or x == y for (_p, x), (_q, y) in zip(vine.flatten(dd), snap) if not isinstance(x, ir.T)) and \
+                        all(x is y for (_p, x), (_q, y) in zip(vine.flatten(dd), snap) if isinstance(x, ir.T))
+                    d2 = I.call_method(m2, 'to_dict', [])
+                    m3 = I.call(I.getattr(I.resolve(VINE), 'from_dict'), [d2], {})
+                    c.out.update({'d': dd, 'd2': d2, 'd3': I.call_method(m3, 'to_dict', []),
+                                  'cls2': m2.cls.name if isinstance(m2, Obj) else repr(m2),
+                                  'fitted2': I.getattr(m2, 'fitted') if isinstance(m2, Obj) else None})
+                    U = lambda: Arr2([Lane(x, 1) for x in uq], 1)       # noqa: E731
+                    c.out['lik1'] = I.call_method(m, 'get_likelihood', [U()])
+                    c.out['lik2'] = I.call_method(m2, 'get_likelihood', [U()])
+                    State.rng = G0
+                    c.out['row1'] = I.call_method(m, '_sample_row', [])
+                    State.rng = G0
+                    c.out['row2'] = I.call_method(m2, '_sample_row', [])
+                    return None
+                with vine.mode():
+                    res, _ = engine.run_paths(I, body, max_paths=200000)
+                k = 0
+                fq = VINE + '.from_dict'
+                rp = vine_rt_replay(vt, d)
+                for r in res:
+                    tag = 'vine.%s.d%d.%s' % (vt, d, entry_name)
+                    if r.outcome == 'unsupported':
+                        chk.undecided.append(('C14.%s.exec' % tag, 'executor', str(r.value)))
+                        continue
+                    if r.outcome != 'return':
+                        chk.add(Ob('C14.%s.no_exception.%s' % (tag, getattr(r.value, 'clsname', '?')), r.pc, ir.FALSE, function=fq,
+                                   free_ufs_ok=True, replay=rp,
+                                   clause='the round trip succeeds [%s]' % str(getattr(r.value, 'args', ''))[:80]))
+                        continue
+                    k += 1
+                    st = r.state
+                    chk.add(Ob('C14.%s.same_family.%d' % (tag, k), [], ir.const(st['cls2'] == 'VineCopula' and st['fitted2'] is True),
+                               backends=('syntactic',), function=fq, replay=rp,
+                               clause='the reconstructed model is a fitted VineCopula [%s]' % st['cls2']))
+                    g, diff = vine.same_tree(st['d'], st['d2'])
+                    chk.add(Ob('C14.%s.dict_fixed_point.%d' % (tag, k), r.pc, g, function=fq, free_ufs_ok=True, replay=rp,
+                               clause='to_dict of the reconstructed vine equals the original to_dict%s' %
+                                      (' [%s]' % diff if diff else '')))
+                    g, diff = vine.same_tree(st['d2'], st['d3'])
+                    chk.add(Ob('C14.%s.dict_fixed_point_twice.%d' % (tag, k), r.pc, g, function=fq, free_ufs_ok=True,
+                               clause='a second round trip changes nothing%s' % (' [%s]' % diff if diff else '')))
+                    chk.add(Ob('C14.%s.dict_argument_unchanged.%d' % (tag, k), [], ir.const(bool(st['arg_same'])),
+                               backends=('syntactic',), function=fq, clause='from_dict does not modify the dict it is given'))
+                    a, b = st['lik1'], st['lik2']
+                    chk.add(Ob('C14.%s.same_behaviour.get_likelihood.%d' % (tag, k), r.pc,
+                               ir.eq(a.t, b.t) if isinstance(a, Sym) and isinstance(b, Sym) else ir.FALSE, function=fq,
+                               free_ufs_ok=True, replay=rp, clause='get_likelihood of the reconstructed vine is identical on any u'))
+                    g, diff = vine.same_tree(st['row1'], st['row2'])
+                    chk.add(Ob('C14.%s.same_behaviour.sample_row.%d' % (tag, k), r.pc, g, function=fq, free_ufs_ok=True, replay=rp,
+                               clause='a sampled row of the reconstructed vine is identical under the same generator state%s' %
+                                      (' [%s]' % diff if diff else '')))
+                if k == 0 and not chk.undecided:
+                    chk.engine_error('C14.vine.%s.d%d: no returning path' % (vt, d))
 
 
 def bounded_vines(chk):
